@@ -124,6 +124,23 @@ def gen_cases(rng, tier):
             c["env"]["conv_info"] = {"entity_id": S.SP_ID}
             c["tag"] = "addr-indexed-rcp:%s/%s" % (binding, rk)
             yield c
+    # the addressing product again through the second public entry point (authn_response + loads + verify)
+    for binding in ("post", "redirect"):
+        vals = addr_values(rng, binding)
+        for (dk, d), (rk, rcp) in itertools.product(vals, vals):
+            for ck, conv in (("none", None), ("eid", {"entity_id": S.SP_ID}), ("addr-only", {"remote_addr": "192.0.2.7"})):
+                if dk != "own" and rk != "own" and ck != "eid":
+                    continue
+                c = C.base_case(PROP, binding=binding)
+                c["resp"]["destination"] = d
+                c["resp"]["assertions"][0]["subject"]["confs"][0]["data"]["recipient"] = rcp
+                c["env"]["conv_info"] = conv
+                c["tag"] = "addr:%s/%s/%s/%s" % (binding, dk, rk, ck)
+                yield C.as_factory(c)
+    for shape in per_restriction_small(per_restriction):
+        yield C.as_factory(audience_case(rng, shape))
+    for _ in range(100 if tier == "quick" else 2000):
+        yield C.as_factory(C.random_full(rng, PROP))
     # audience structures on the attribute-query answer path
     for shape in per_restriction_small(per_restriction):
         yield C.as_attr(audience_case(rng, shape), keep_authn=len(shape) % 2 == 0)
